@@ -116,7 +116,12 @@ def rad50(state, string: str) -> bytes:
             string = get_as_str(state, "'.rad50' operand", state["insn"], chunk)
             for char in string:
                 try:
-                    val = radix50.TABLE.index(char.upper())
+                    upper_char = char.upper()
+                    if len(upper_char) != 1:
+                        # Some characters (e.g. ligatures) turn into several
+                        # characters when upper-cased
+                        raise ValueError()
+                    val = radix50.TABLE.index(upper_char)
                 except ValueError:
                     reports.error(
                         "invalid-character",
